@@ -3,6 +3,7 @@ package main
 import (
 	"fmt"
 	"go/ast"
+	"go/parser"
 	"go/token"
 	"os"
 	"path/filepath"
@@ -220,7 +221,17 @@ func (t *lockTr) stmt(s ast.Stmt) string {
 		}
 		return ".unknown"
 	case *ast.GoStmt:
-		return t.simple(v)
+		// another goroutine runs the call: a function literal is translated apart, the arguments are evaluated here
+		parts := []string{}
+		if fl, ok := v.Call.Fun.(*ast.FuncLit); ok {
+			t.lits = append(t.lits, fl)
+		} else {
+			parts = append(parts, t.simple(v.Call.Fun))
+		}
+		for _, a := range v.Call.Args {
+			parts = append(parts, t.simple(a))
+		}
+		return seqOf(parts)
 	default:
 		return t.simple(v)
 	}
@@ -393,6 +404,87 @@ func extractLocks(out string) {
 	for _, rel := range files {
 		f := load(rel)
 		captured = append(captured, capturedLoopVars(rel, f)...)
+		entries = append(entries, translateFile(rel, f)...)
+	}
+	// the translator applied to a text of its own, whose skeletons Tie/Locks.lean knows by heart
+	st, err := parser.ParseFile(fset, "selftest.go", lockSelfTest, 0)
+	if err != nil {
+		fail("locks self test: %v", err)
+	}
+	l.raw("def selfTest : List (String × QiVerif.Locks.Prog) :=\n  [" + strings.Join(translateFile("selftest.go", st), ",\n   ") + "]")
+	l.strList("selfTestCaptured", capturedLoopVars("selftest.go", st))
+	l.strList("capturedLoopVars", captured)
+	l.raw("def fns : List (String × QiVerif.Locks.Prog) :=\n  [" + strings.Join(entries, ",\n   ") + "]")
+	l.writeWithImports(out, "Locks.lean", []string{"QiVerif.Model.Locks"})
+}
+
+const lockSelfTest = `package p
+
+func (t *T) a(c bool) int {
+	t.mu.Lock()
+	defer t.mu.Unlock()
+	if c {
+		return 1
+	}
+	for i := 0; i < 3; i++ {
+		if c {
+			continue
+		}
+		break
+	}
+	return 0
+}
+
+func (t *T) b(ch chan int) {
+	t.mu.RLock()
+	for _, x := range t.xs {
+		switch x {
+		case 1:
+			break
+		case 2:
+			t.mu.RUnlock()
+			return
+		}
+		select {
+		case ch <- x:
+		default:
+		}
+		select {
+		case ch <- x:
+		case <-t.done:
+		}
+	}
+	t.mu.RUnlock()
+	t.peer.Send(nil)
+	go func() {
+		t.other.Lock()
+		ch <- 1
+		t.other.Unlock()
+	}()
+}
+
+func (t *T) c() {
+	t.mu.Lock()
+outer:
+	for {
+		for {
+			break outer
+		}
+	}
+	t.mu.Unlock()
+}
+
+func (t *T) d(ms []int) {
+	for _, m := range ms {
+		go func() { t.use(m) }()
+		go func(m int) { t.use(m) }(m)
+	}
+}
+`
+
+func translateFile(rel string, f *ast.File) []string {
+	var entries []string
+	{
 		for _, d := range f.Decls {
 			fd, ok := d.(*ast.FuncDecl)
 			if !ok || fd.Body == nil || !touchesLocks(fd.Body, true) {
@@ -422,7 +514,5 @@ func extractLocks(out string) {
 			}
 		}
 	}
-	l.strList("capturedLoopVars", captured)
-	l.raw("def fns : List (String × QiVerif.Locks.Prog) :=\n  [" + strings.Join(entries, ",\n   ") + "]")
-	l.writeWithImports(out, "Locks.lean", []string{"QiVerif.Model.Locks"})
+	return entries
 }
